@@ -1442,7 +1442,7 @@ def set_seq_zo_fo_absorption(model: Model):
         dose_comp = cs.dosing_compartments[0]
         have_ZO = has_zero_order_absorption(model)
         if depot and not have_ZO:
-            model = _add_zero_order_absorption(model, dose_comp.doses[0], depot, 'MDT')
+            model = _add_zero_order_absorption(model, dose_comp.doses[0], dose_comp, 'MDT')
         elif not depot and have_ZO:
             if len(dose_comp.doses) == 1:
                 fo_dose = dose_comp.doses[0]
